@@ -23,6 +23,7 @@ pub fn rand_notes(rng: &mut Rng, n: usize, max_sz: usize) -> Vec<NoteSpec> {
             },
             1 => { let l = rng.below(max_sz as u64 + 1) as usize; NoteSpec { n_type: 3, name: b"GNU\0".to_vec(), desc: rng.bytes(l) } }
             2 => { let l = rng.below(max_sz as u64 + 1) as usize; NoteSpec { n_type: rng.below(8) as u32, name: b"GNU\0".to_vec(), desc: rng.bytes(l) } }
+            3 => NoteSpec { n_type: rng.below(8) as u32, name: vec![], desc: vec![] }, // a bare 12-byte header
             _ => {
                 let nl = rng.below(max_sz as u64 + 1) as usize;
                 let mut name: Vec<u8> = (0..nl).map(|_| *rng.pick(b"abcXYZ.")).collect();
@@ -57,6 +58,10 @@ pub fn gen_notes(rng: &mut Rng, n: usize, thorough: bool) -> Vec<Case> {
                 ];
                 let data = build_notes(le, align, &notes);
                 out.push((format!("notes {} {} {} {}", le as u8, cls(ns % 2 == 0), align, hex(&data)), "wf=1".into()));
+                // the same two records in the other order: the swept one is the last record of the buffer
+                let rev = vec![notes[1].clone(), notes[0].clone()];
+                let data = build_notes(le, align, &rev);
+                out.push((format!("notes {} {} {} {}", le as u8, cls(ns % 2 == 0), align, hex(&data)), "wf=1|last".into()));
             }
         }
     }
